@@ -106,6 +106,7 @@ class LinesearchSolver(NonlinearSolver):
             depth of the current system (already incremented).
         """
         super()._setup_solvers(system, depth)
+        self._lower_bounds = self._upper_bounds = None
         if system._has_bounds:
             abs2meta_out = system._var_abs2meta['output']
             start = end = 0
